@@ -374,6 +374,11 @@ impl Scenario for C02S {
                 out.viol("hang:send", format!("{} blocked forever in {} ({}) although its receiver is alive", b.label, b.in_call, b.cond));
             }
         }
+        // a panic inside the library (sender, receiver or routing thread) is never an acceptable way
+        // of losing a message; the harness's own threads do not panic on the unchanged tree
+        for pn in hist::panics() {
+            out.viol(&hist::panic_sig(pn), format!("panic in [{}]: {} at {}", pn.label, pn.msg, pn.loc));
+        }
         out.nontrivial = senders.len() >= 2 || multi;
         out.probe("multi_packet_case", multi as u64);
         out.probe("deliveries", deliveries.len() as u64);
